@@ -187,49 +187,50 @@ def _c17_lru(r):
     return sch + port + b"".join(hosts) + b"".join(rest)
 
 
-def extra_C17(tier, seed, scratch, cfg, out):
+def c17_clauses(x):
+    """all clauses of C17 for one grammar LRU against the real helpers; returns (reason, detail) or None"""
     from traph import helpers as H
-    from .ref import stems_of, in_c17_grammar
+    from .ref import stems_of
+    try:
+        v = H.lru_variations(x)
+    except Exception as e:  # noqa
+        return ("expansion fails with %s" % type(e).__name__, None)
+    if not v or v[0] != x:
+        return ("the prefix itself is not listed first", [repr(y) for y in v])
+    if len(set(v)) != len(v):
+        return ("an entry is listed twice", [repr(y) for y in v])
+    sx = stems_of(x)
+    tg = _toggle(sx)
+    for y in v:
+        sy = stems_of(y)
+        if b"".join(sy) != y or sy[1:] not in (sx[1:], tg[1:] if tg else None) or \
+                (sy[0] != sx[0] and {sy[0], sx[0]} != {b"s:http|", b"s:https|"}):
+            return ("an entry differs from the prefix in more than the scheme stem and a trailing www host stem", repr(y))
+    for y in v:
+        try:
+            vy = H.lru_variations(y)
+        except Exception as e:  # noqa
+            return ("expanding the member %r fails with %s" % (y, type(e).__name__), None)
+        if set(vy) != set(v):
+            return ("not closed: expanding the member %r yields a different set" % y,
+                    {"of_prefix": [repr(z) for z in v], "of_member": [repr(z) for z in vy]})
+    return None
+
+
+def extra_C17(tier, seed, scratch, cfg, out):
+    from .ref import in_c17_grammar
     r = random.Random(seed * 7907 + 17000)
     n = 4000 if tier == "quick" else 120000
     hits, seen = [], set()
-
-    def fail(x, reason, detail=None):
-        hits.append({"kind": "variations", "lines": ["? variations " + hx(x)],
-                     "finding": {"lru": repr(x), "reason": reason, "detail": detail}})
-
     for _ in range(n):
         x = _c17_lru(r)
         if not in_c17_grammar(x) or x in seen:
             continue
         seen.add(x)
-        try:
-            v = H.lru_variations(x)
-        except Exception as e:  # noqa
-            fail(x, "expansion fails with %s" % type(e).__name__); break
-        if not v or v[0] != x:
-            fail(x, "the prefix itself is not listed first", [repr(y) for y in v]); break
-        if len(set(v)) != len(v):
-            fail(x, "an entry is listed twice", [repr(y) for y in v]); break
-        sx = stems_of(x)
-        bad = None
-        for y in v:
-            sy = stems_of(y)
-            hx_ = [s for s in sx if s.startswith(b"h:")]
-            # compare everything but the scheme stem and one trailing www host stem
-            if b"".join(sy) != y or sy[1:] not in (sx[1:], _toggle(sx)[1:] if _toggle(sx) else None) or \
-                    (sy[0] != sx[0] and {sy[0], sx[0]} != {b"s:http|", b"s:https|"}):
-                bad = y; break
-        if bad is not None:
-            fail(x, "an entry differs from the prefix in more than the scheme stem and a trailing www host stem", repr(bad)); break
-        for y in v:
-            try:
-                vy = H.lru_variations(y)
-            except Exception as e:  # noqa
-                fail(x, "expanding the member %r fails with %s" % (y, type(e).__name__)); break
-            if set(vy) != set(v):
-                fail(x, "not closed: expanding the member %r yields a different set" % y, {"of_prefix": [repr(z) for z in v], "of_member": [repr(z) for z in vy]}); break
-        if hits:
+        bad = c17_clauses(x)
+        if bad:
+            hits.append({"kind": "variations", "lines": ["? variations " + hx(x)],
+                         "finding": {"lru": repr(x), "reason": bad[0], "detail": bad[1]}})
             break
     out.extra["C17"] = {"distinct_grammar_lrus_checked": len(seen)}
     return hits[:1]
